@@ -14,6 +14,8 @@ Proof.
   - f_equal; auto.
   - apply andb_prop in H as [H1 H2]. f_equal; auto.
   - f_equal; auto.
+  - f_equal; auto.
+  - apply andb_prop in H as [H1 H2]. f_equal; auto.
 Qed.
 
 Lemma ty_eqb_spec a b : ty_eqb a b = true <-> a = b.
@@ -44,6 +46,8 @@ Section PvalInd.
   Hypothesis HLeft : forall v t, P v -> P (PLeft v t).
   Hypothesis HRight : forall t v, P v -> P (PRight t v).
   Hypothesis HList : forall t l, Forall P l -> P (PList t l).
+  Hypothesis HSet : forall t l, Forall P l -> P (PSet t l).
+  Hypothesis HMap : forall kt vt l, Forall P l -> P (PMap kt vt l).
 
   Fixpoint pval_ind' (v : pval) : P v :=
     match v with
@@ -68,6 +72,18 @@ Section PvalInd.
                       | [] => Forall_nil P
                       | x :: r => Forall_cons x (pval_ind' x) (go r)
                       end) l)
+    | PSet t l =>
+        HSet t l ((fix go (l : list pval) : Forall P l :=
+                     match l with
+                     | [] => Forall_nil P
+                     | x :: r => Forall_cons x (pval_ind' x) (go r)
+                     end) l)
+    | PMap kt vt l =>
+        HMap kt vt l ((fix go (l : list pval) : Forall P l :=
+                         match l with
+                         | [] => Forall_nil P
+                         | x :: r => Forall_cons x (pval_ind' x) (go r)
+                         end) l)
     end.
 End PvalInd.
 
@@ -85,6 +101,8 @@ Section DataInd.
   Hypothesis HLeft : forall v, P v -> P (DLeft v).
   Hypothesis HRight : forall v, P v -> P (DRight v).
   Hypothesis HList : forall l, Forall P l -> P (DList l).
+  Hypothesis HSet : forall l, Forall P l -> P (DSet l).
+  Hypothesis HMap : forall l, Forall P l -> P (DMap l).
 
   Fixpoint data_ind' (v : data) : P v :=
     match v with
@@ -105,6 +123,18 @@ Section DataInd.
                     | [] => Forall_nil P
                     | x :: r => Forall_cons x (data_ind' x) (go r)
                     end) l)
+    | DSet l =>
+        HSet l ((fix go (l : list data) : Forall P l :=
+                   match l with
+                   | [] => Forall_nil P
+                   | x :: r => Forall_cons x (data_ind' x) (go r)
+                   end) l)
+    | DMap l =>
+        HMap l ((fix go (l : list data) : Forall P l :=
+                   match l with
+                   | [] => Forall_nil P
+                   | x :: r => Forall_cons x (data_ind' x) (go r)
+                   end) l)
     end.
 End DataInd.
 
@@ -114,7 +144,7 @@ Definition typed (v : pval) (t : ty) : Prop := pv_typedb v t = true.
 Lemma typed_rt_type v : forall t, typed v t -> rt_type v = t.
 Proof.
   unfold typed.
-  induction v as [z|z|z|z|s|s|s|s|b| |x y IHx IHy|t0|x IHx|x t0 IHx|t0 x IHx|t0 l IHl] using pval_ind';
+  induction v as [z|z|z|z|s|s|s|s|b| |x y IHx IHy|t0|x IHx|x t0 IHx|t0 x IHx|t0 l IHl|t0 l IHl|kt vt l IHl] using pval_ind';
     intros [] Ht; simpl in Ht; try discriminate; simpl; try reflexivity.
   - apply andb_prop in Ht as [H1 H2]. f_equal; auto.
   - apply ty_eqb_eq in Ht. congruence.
@@ -122,6 +152,9 @@ Proof.
   - apply andb_prop in Ht as [H1 H2]. apply ty_eqb_eq in H2. f_equal; auto.
   - apply andb_prop in Ht as [H1 H2]. apply ty_eqb_eq in H1. f_equal; auto.
   - apply andb_prop in Ht as [H1 H2]. apply ty_eqb_eq in H1. congruence.
+  - apply andb_prop in Ht as [H1 H2]. apply andb_prop in H1 as [H1 H3]. apply ty_eqb_eq in H1. congruence.
+  - apply andb_prop in Ht as [H1 H2]. apply andb_prop in H1 as [H1 H3]. apply andb_prop in H1 as [H1 H4].
+    apply ty_eqb_eq in H1. apply ty_eqb_eq in H4. congruence.
 Qed.
 
 Lemma typed_list_inv t' l a : typed (PList t' l) (TList a) -> t' = a /\ Forall (fun x => typed x a) l.
@@ -183,12 +216,21 @@ Proof.
 Qed.
 
 (* ---- literals ---- *)
-Lemma py_of_data_typed d : forall t, data_has_type t d = true ->
+(* literals without sets and maps (set/map literals are outside the proved fragment) *)
+Fixpoint no_coll (t : ty) : bool :=
+  match t with
+  | TSet _ | TMap _ _ => false
+  | TPair a b | TOr a b => no_coll a && no_coll b
+  | TOption a | TList a => no_coll a
+  | _ => true
+  end.
+
+Lemma py_of_data_typed d : forall t, data_has_type t d = true -> no_coll t = true ->
   exists v, py_of_data t d = Some v /\ typed v t /\ erase v = value_of_data d.
 Proof.
   unfold typed.
-  induction d as [z|z|s|s|b| |x y IHx IHy| |x IHx|x IHx|x IHx|l IHl] using data_ind';
-    intros [] Ht; simpl in Ht; try discriminate; simpl.
+  induction d as [z|z|s|s|b| |x y IHx IHy| |x IHx|x IHx|x IHx|l IHl|l IHl|l IHl] using data_ind';
+    intros [] Ht Hn; simpl in Ht; try discriminate; simpl in Hn; try discriminate; simpl.
   - eexists; repeat split.
   - apply Z.leb_le in Ht. destruct (z <? 0)%Z eqn:E; [apply Z.ltb_lt in E; lia|].
     eexists; repeat split. simpl. apply Z.leb_le. assumption.
@@ -200,15 +242,15 @@ Proof.
   - eexists; repeat split.
   - eexists; repeat split.
   - eexists; repeat split.
-  - apply andb_prop in Ht as [H1 H2].
-    destruct (IHx _ H1) as (v1 & E1 & T1 & R1). destruct (IHy _ H2) as (v2 & E2 & T2 & R2).
+  - apply andb_prop in Ht as [H1 H2]. apply andb_prop in Hn as [N1 N2].
+    destruct (IHx _ H1 N1) as (v1 & E1 & T1 & R1). destruct (IHy _ H2 N2) as (v2 & E2 & T2 & R2).
     rewrite E1, E2. eexists; repeat split; simpl; [rewrite T1, T2; reflexivity | congruence].
   - eexists; repeat split. simpl. apply ty_eqb_refl.
-  - destruct (IHx _ Ht) as (v & E & T & R). rewrite E. simpl. eexists; repeat split; simpl; [assumption | congruence].
-  - destruct (IHx _ Ht) as (v & E & T & R). rewrite E. simpl. eexists; repeat split; simpl.
+  - destruct (IHx _ Ht Hn) as (v & E & T & R). rewrite E. simpl. eexists; repeat split; simpl; [assumption | congruence].
+  - apply andb_prop in Hn as [N1 N2]. destruct (IHx _ Ht N1) as (v & E & T & R). rewrite E. simpl. eexists; repeat split; simpl.
     + rewrite T, ty_eqb_refl. reflexivity.
     + congruence.
-  - destruct (IHx _ Ht) as (v & E & T & R). rewrite E. simpl. eexists; repeat split; simpl.
+  - apply andb_prop in Hn as [N1 N2]. destruct (IHx _ Ht N2) as (v & E & T & R). rewrite E. simpl. eexists; repeat split; simpl.
     + rewrite T, ty_eqb_refl. reflexivity.
     + congruence.
   - (* lists *)
@@ -223,7 +265,7 @@ Proof.
          end) l = Some vs /\ forallb (fun x => pv_typedb x a) vs = true /\ map erase vs = map value_of_data l).
     { induction l as [|x r IHr]; [exists []; auto|].
       simpl in Ht. apply andb_prop in Ht as [Hx Hr]. inversion IHl as [|? ? Px Pr]; subst.
-      destruct (Px _ Hx) as (v & E & T & R). destruct (IHr Pr Hr) as (vs & Es & Ts & Rs).
+      destruct (Px _ Hx Hn) as (v & E & T & R). destruct (IHr Pr Hr) as (vs & Es & Ts & Rs).
       rewrite E, Es. exists (v :: vs). repeat split; simpl; [rewrite T, Ts; reflexivity | congruence]. }
     destruct G as (vs & Es & Ts & Rs). rewrite Es. simpl. eexists; repeat split; simpl.
     + rewrite ty_eqb_refl, Ts. reflexivity.
